@@ -349,7 +349,7 @@ def main(a):
     # measured list of what this run left unchecked (names, not counts)
     assumptions = list(meta.get("assumptions", []))
     a_repo, a_stand, a_ax, a_un = set(), set(), set(), set()
-    ran_units = {x.get("unit") for x in units_ev if x.get("engine") == "verus"}
+    ran_units = {x.get("unit") for x in units_ev if x.get("engine") == "verus-z3"}
     for x in units_ev:
         an = x.get("assumed_names") or {}
         a_repo.update("%s (in %s)" % (n, x.get("unit")) for n in an.get("repo_contracts_assumed_in_this_unit", []))
